@@ -13,7 +13,7 @@ use crate::util::*;
 use crate::Ctx;
 use khttp::{ConnectionSetupAction, Headers, PreRoutingAction, Server};
 use std::io::{Read, Write};
-use std::net::{TcpListener, TcpStream};
+use std::net::TcpStream;
 use std::sync::atomic::{AtomicBool, AtomicUsize, Ordering};
 use std::sync::{Arc, Mutex};
 use std::time::{Duration, Instant};
@@ -29,10 +29,7 @@ struct HookLog {
     by_fd: Vec<(i32, usize)>,
 }
 
-fn free_port() -> u16 {
-    let l = TcpListener::bind("127.0.0.1:0").unwrap();
-    l.local_addr().unwrap().port()
-}
+fn free_port() -> u16 { listen_port() }
 
 fn run_mode(mode: &str, port: u16, conns: &[(bool, Vec<String>)], keep: &[bool], kinds: &[char], threads: usize, max_head: usize, linger_ms: u64, burst: bool) -> String {
     let log: Arc<Mutex<HookLog>> = Arc::new(Mutex::new(HookLog::default()));
@@ -266,7 +263,7 @@ pub fn run(case: &str) -> String {
     }).collect();
     // the three servers run side by side (separate listeners, logs and client threads)
     // three distinct ports, chosen while all three probe listeners are still bound
-    let ports: Vec<u16> = { let ls: Vec<TcpListener> = (0..3).map(|_| TcpListener::bind("127.0.0.1:0").unwrap()).collect(); ls.iter().map(|l| l.local_addr().unwrap().port()).collect() };
+    let ports: Vec<u16> = (0..3).map(|_| listen_port()).collect();
     std::thread::scope(|sc| {
         let hs: Vec<_> = ["pool", "threaded", "epoll"].iter().zip(ports.iter()).map(|(m, port)| { let (conns, keep, kinds, port) = (&conns, &keep, &kinds, *port); sc.spawn(move || run_mode(m, port, conns, keep, kinds, threads, max_head, linger_ms, burst)) }).collect();
         hs.into_iter().map(|h| h.join().unwrap_or_else(|_| "mode=? PANIC".into())).collect::<Vec<_>>().join(" ## ")
